@@ -15,16 +15,28 @@ theorem ignored_unless_may_migrate (a : Nat) (evs : List Ev) :
   no_migration_path a evs
 
 /-- the path changes only on a non-probing packet carrying the highest packet number, from another address -/
-theorem migrate_only_on_trigger (s : S) (src now pto3 tok tok2 : Nat) :
-    (step s (.pkt src false now pto3 tok tok2)).path = s.path :=
-  pkt_no_trigger_keeps_path s src now pto3 tok tok2
+theorem migrate_only_on_trigger (s : S) (src now ptoNew ptoOld tok tok2 : Nat) :
+    (step s (.pkt src false now ptoNew ptoOld tok tok2)).path = s.path :=
+  pkt_no_trigger_keeps_path s src now ptoNew ptoOld tok tok2
 
 /-- a freshly migrated-to path is unvalidated, carries a pending challenge, and the validation timer is armed
-    3·PTO ahead (so C07's limit applies to it) -/
-theorem new_path_unvalidated (s : S) (src now pto3 tok tok2 : Nat) (hm : s.mayMigrate = true) (hs : src ≠ s.path.addr) :
-    let s' := step s (.pkt src true now pto3 tok tok2)
-    s'.path.addr = src ∧ s'.path.validated = false ∧ s'.path.challenge = some tok ∧ s'.timer = some (now + pto3) :=
-  migrate_result s src now pto3 tok tok2 hm hs
+    THREE probe timeouts ahead, the probe timeout being the larger of the new path's and the old path's
+    (`Spec`: the constant 3 and the max are written here; the model takes its factor from the source) -/
+theorem new_path_unvalidated (s : S) (src now ptoNew ptoOld tok tok2 : Nat) (hm : s.mayMigrate = true) (hs : src ≠ s.path.addr) :
+    let s' := step s (.pkt src true now ptoNew ptoOld tok tok2)
+    s'.path.addr = src ∧ s'.path.validated = false ∧ s'.path.challenge = some tok ∧
+      s'.timer = some (now + 3 * max ptoNew ptoOld) :=
+  migrate_deadline_3pto s src now ptoNew ptoOld tok tok2 hm hs
+
+/-- "returns to the previous path within three probe timeouts": after a migration at `now`, over EVERY
+    continuation in which no further migration is triggered (any packets, responses with any tokens, timer
+    services at any instants), servicing the timer at or after `now + 3·max(PTO new, PTO old)` finds the connection
+    on a validated path: the new one if it was validated in between, otherwise the previous one -/
+theorem held_at_most_3pto (s : S) (hi : Inv s) (src now ptoNew ptoOld tok tok2 : Nat) (hm : s.mayMigrate = true)
+    (hs : src ≠ s.path.addr) (evs : List Ev) (hn : ∀ e ∈ evs, NotTrigger e) (t : Nat)
+    (ht : now + 3 * max ptoNew ptoOld ≤ t) :
+    (step (run (step s (.pkt src true now ptoNew ptoOld tok tok2)) evs) (.timeout t)).path.validated = true :=
+  PathM.held_at_most_3pto s hi src now ptoNew ptoOld tok tok2 hm hs evs hn t ht
 
 /-- a path becomes validated only by a PATH_RESPONSE echoing its own challenge, arriving from its own address
     (or by returning to the previously validated path) -/
@@ -53,16 +65,19 @@ theorem revert_within_3pto (s : S) (hi : Inv s) (hu : s.path.validated = false) 
 /-- … and the deadline is exactly 3·PTO after the last migration: later packets that do not migrate, and
     responses that do not match, leave it unchanged -/
 theorem deadline_fixed_without_migration (s : S) (e : Ev) (t : Nat) (ht : s.timer = some t)
-    (hne : ∀ src now pto3 tok tok2, e = .pkt src true now pto3 tok tok2 → src = s.path.addr ∨ s.mayMigrate = false) :
+    (hne : ∀ src now ptoNew ptoOld tok tok2, e = .pkt src true now ptoNew ptoOld tok tok2 → src = s.path.addr ∨ s.mayMigrate = false) :
     (step s e).timer = some t ∨ (step s e).timer = none :=
   timer_kept s e t ht hne
 
 -- non-vacuity: spoofed migration, second spoof before validation, revert; genuine migration validated
-example : (run (init 1 true) [.pkt 9 true 100 30 7 8, .pkt 5 true 110 30 11 12, .response 9 7, .timeout 140]).path
+example : (run (init 1 true) [.pkt 9 true 100 10 7 7 8, .pkt 5 true 110 10 9 11 12, .response 9 7, .timeout 140]).path
     = ⟨1, true, none, false⟩ := by decide
 -- (`pending` stays set: the model clears `pending` only on timeout / on the previous path; sending the
 --  PATH_CHALLENGE frame, which clears it in quinn, is not modelled)
-example : (run (init 1 true) [.pkt 2 true 100 30 7 8, .response 2 7]).path = ⟨2, true, none, true⟩ := by decide
-example : (run (init 1 true) [.pkt 2 true 100 30 7 8, .response 2 7]).timer = none := by decide
+example : (run (init 1 true) [.pkt 2 true 100 10 4 7 8, .response 2 7]).path = ⟨2, true, none, true⟩ := by decide
+example : (run (init 1 true) [.pkt 2 true 100 10 4 7 8, .response 2 7]).timer = none := by decide
+
+-- the deadline of the first example: 100 + 3 * max 10 7 = 130
+example : (step (init 1 true) (.pkt 9 true 100 10 7 7 8)).timer = some 130 := by decide
 
 end QM.Props.C15
